@@ -149,6 +149,11 @@ def generate(rng, k):
             last_id = i
         elif kind == "exp":
             op = {"op": rng.choice(["export", "export", "export_indexing", "full_export", "full_export"])}
+            if rng.random() < 0.15:
+                # index written BEFORE the bundle it should describe, then again afterwards
+                ops.append({"op": "export_indexing"})
+                ops.append({"op": "export"})
+                op = {"op": "export_indexing"}
         elif kind == "restart":
             if rng.random() < 0.7:
                 ops.append({"op": "full_export"})
@@ -350,11 +355,18 @@ def execute(trace):
         if b_ok or b_bad:
             M["exported"] |= M["active"]
             if b_bad:
-                M["at_risk"] |= M["active"]
+                # ids the model lost track of may still be marked 'active' in the loader's index and are swept into this bundle
+                M["at_risk"] |= M["active"] | M["ghost"]
             M["resaved_over_export"] -= M["active"]
             M["active"] = set()
             M["index_fresh"] = False
-        if x_ok:
+        # expectation, not observation: an export / export_indexing call that returned without a fault must have made the
+        # files complete, whether or not the loader chose to write (a loader that skips a needed write is caught at restart)
+        if kind in ("export", "full_export") and err is None and not b_bad and not arrow_err:
+            M["exported"] |= M["active"]
+            M["resaved_over_export"] -= M["active"]
+            M["active"] = set()
+        if x_ok or (kind in ("export_indexing", "full_export") and err is None and not x_bad and not fired):
             M["index_fresh"] = True
             M["index_at_risk"] = False
             M["disk_at_risk"] = set(M["at_risk"])    # the durable index now maps these ids to a damaged bundle file
